@@ -4,11 +4,6 @@
    non-zero crossover index of every column to their left. *)
 From V Require Import lib.Tree model.C12.
 
-(* crossover index of a level in a column: position (counted from the bottom row, 0 = none) of the first entry >= level *)
-Definition cross (M : list (list Z)) (level c : nat) : nat := argmax_ge (rev (colz M c)) (Z.of_nat level).
-Definition place (M : list (list Z)) (aw : list Q) (level c : nat) : nat * nat * Q :=
-  ((cross M level c - 1)%nat, (c - 1)%nat, nth (level - 1) aw 0).
-
 (* column c (counted from column a) receives the weight of the level *)
 Definition receives (pi : nat -> nat) (L a c : nat) : bool :=
   (0 <? pi c)%nat && (pi c <? L)%nat && forallb (fun c' => (pi c' =? 0)%nat || (pi c <? pi c')%nat) (seq a (c - a)).
@@ -94,4 +89,33 @@ Proof.
   - apply Z.leb_gt in E. destruct (first_ge t lvl) as [k|]; simpl.
     + destruct IH as [A [B C]]. repeat split; try lia; auto. intros [|j] Hj; auto. apply C. lia.
     + intros [|j] Hj; auto. apply IH. lia.
+Qed.
+
+(* scaling_matrix_spec: the line-by-line model of _scaling_to_weight_matrix (lowest_prob_index starting at n_prob + 1)
+   IS the declarative specification, for every scaling matrix and every list of assessment weights *)
+Lemma code_placements_spec M aw : M <> [] -> placements (length M - 1 + 1) M aw = spec_placements M aw.
+Proof.
+  intro H. replace (length M - 1 + 1)%nat with (length M) by (destruct M; [congruence | simpl; lia]).
+  rewrite placements_spec. unfold spec_placements. apply flat_map_ext. intro level. f_equal.
+  apply filter_ext. intro c. rewrite (receives_spec M level 1 c H). reflexivity.
+Qed.
+Theorem scaling_to_wm_is_spec M aw : scaling_to_wm M aw = scaling_to_wm_spec M aw.
+Proof.
+  destruct M as [|r M']; [reflexivity|].
+  unfold scaling_to_wm, scaling_to_wm_spec, scaling_to_wm_with. rewrite code_placements_spec by discriminate. reflexivity.
+Qed.
+(* every entry of the resulting weight matrix (before the rows are attached to decreasing probabilities): the sum of
+   the assessment weights of the levels whose weight the decision point receives *)
+Lemma scaling_entry M aw r' c :
+  (r' < length M - 1)%nat -> (c < length (hd [] M) - 1)%nat ->
+  nth c (nth r' (scaling_to_wm M aw) []) 0 = wts_entry (spec_placements M aw) (length M - 1 - 1 - r')%nat c.
+Proof.
+  intros Hr Hc. rewrite scaling_to_wm_is_spec. unfold scaling_to_wm_spec.
+  set (f := fun r0 => map (fun c0 => wts_entry (spec_placements M aw) (length M - 1 - 1 - r0)%nat c0) (seq 0 (length (hd [] M) - 1))).
+  change (nth c (nth r' (map f (seq 0 (length M - 1))) []) 0 = wts_entry (spec_placements M aw) (length M - 1 - 1 - r')%nat c).
+  rewrite (nth_indep _ [] (f 0%nat)) by (rewrite map_length, seq_length; exact Hr).
+  rewrite map_nth, seq_nth by exact Hr. unfold f. simpl plus.
+  set (g := fun c0 => wts_entry (spec_placements M aw) (length M - 1 - 1 - r')%nat c0).
+  rewrite (nth_indep _ 0 (g 0%nat)) by (rewrite map_length, seq_length; exact Hc).
+  rewrite map_nth, seq_nth by exact Hc. reflexivity.
 Qed.
